@@ -2,6 +2,8 @@ package ctrl
 
 import (
 	"fmt"
+	"os"
+	"path/filepath"
 	"reflect"
 	"strconv"
 	"strings"
@@ -331,4 +333,106 @@ func FaultAt(res Result, p int) byte {
 		return '?'
 	}
 	return res.Trace[p] &^ 0x20
+}
+
+// ReplayCorpus performs the operation lines of every *.ops file of the
+// property's corpus directory (minimised past disagreements and witnesses) on
+// the real code, as protocol lines: `reset`, `config`, `new`, `net`, `index`,
+// `delete`, `run`. Lines starting with # are comments.
+func (s *Session) ReplayCorpus(dir string) {
+	ents, err := os.ReadDir(dir)
+	if err != nil {
+		return
+	}
+	for _, e := range ents {
+		if e.IsDir() || !strings.HasSuffix(e.Name(), ".ops") {
+			continue
+		}
+		b, err := os.ReadFile(filepath.Join(dir, e.Name()))
+		if err != nil {
+			continue
+		}
+		s.R.Count("corpus.file")
+		for _, line := range strings.Split(string(b), "\n") {
+			line = strings.TrimSpace(line)
+			if line == "" || strings.HasPrefix(line, "#") {
+				continue
+			}
+			f := strings.Fields(line)
+			switch {
+			case f[0] == "reset" && len(f) == 1:
+				s.Reset()
+			case s.W == nil:
+				// every file starts with reset
+			case f[0] == "config" && len(f) == 2:
+				if cfg, err := ParseConfig(f[1]); err == nil {
+					s.Config(cfg)
+				}
+			case f[0] == "new" && len(f) == 3:
+				if cfg, err := ParseConfig(f[2]); err == nil {
+					s.New(parseNewFaults(f[1]), cfg)
+				}
+			case f[0] == "net" && len(f) == 2:
+				s.Net(f[1] == "down")
+			case f[0] == "index" && len(f) == 4:
+				ls, e1 := ParseLayers(f[1])
+				sc, e2 := ParseScript(f[2])
+				if e1 == nil && e2 == nil {
+					s.Index(ls, sc, f[3] == "dead")
+				}
+			case f[0] == "delete" && len(f) == 2:
+				var ms [][]int
+				for _, p := range strings.Split(f[1], ";") {
+					if ls, err := ParseLayers(p); err == nil {
+						ms = append(ms, ls)
+					}
+				}
+				s.Delete(ms)
+			case f[0] == "run" && len(f) == 2:
+				s.Run(parseRun(f[1]))
+			}
+			s.R.Count("corpus.line")
+		}
+	}
+}
+
+func parseNewFaults(x string) NewFaults {
+	nf := NewFaults{CtorFailAt: -1}
+	if x == "-" {
+		return nf
+	}
+	for _, p := range strings.Split(x, ",") {
+		switch {
+		case p == "l":
+			nf.NoLocker = true
+		case p == "s":
+			nf.NoStore = true
+		case p == "a":
+			nf.NoArena = true
+		case p == "h":
+			nf.NoClient = true
+		case p == "r":
+			nf.RegisterFails = true
+		case strings.HasPrefix(p, "c"):
+			if k, err := strconv.Atoi(p[1:]); err == nil {
+				nf.CtorFailAt = k
+			}
+		}
+	}
+	return nf
+}
+
+func parseRun(x string) []RunIter {
+	var out []RunIter
+	if x == "-" {
+		return out
+	}
+	for _, p := range strings.Split(x, ";") {
+		f := strings.Split(p, "/")
+		if len(f) != 3 || len(f[1]) != 1 {
+			continue
+		}
+		out = append(out, RunIter{Next: f[0], Err: f[1][0], Cancel: strings.Contains(f[2], "x"), PersistFails: strings.Contains(f[2], "p"), CancelInWait: strings.Contains(f[2], "w")})
+	}
+	return out
 }
